@@ -87,7 +87,7 @@ func c06Cases(tier string, seed int64) []core.Case {
 	return cases
 }
 
-var c06states = []string{"none", "dir", "file", "openfile", "opendir", "clunked", "nofid", "created"}
+var c06states = []string{"none", "dir", "file", "openfile", "opendir", "clunked", "nofid", "created", "authfid"}
 
 // hostile is a server under attack plus its bystander connection.
 type hostile struct {
@@ -144,7 +144,7 @@ func newHostile(ctx *core.Ctx, res *core.Result, server string, dotu bool) *host
 		h.s = NewUfsSess(h.root, dotu, 8192)
 		h.s.Srv.Debuglevel = dbg
 	} else {
-		h.s = NewSess(Config{Dotu: dotu, Msize: 8192, Debug: dbg})
+		h.s = NewSess(Config{Dotu: dotu, Msize: 8192, Debug: dbg, Auth: true}) // with authentication operations: auth fids exist
 	}
 	// the bystander: attached, with an open fid
 	h.by = h.s.Dial()
@@ -249,6 +249,9 @@ func (h *hostile) prepare(c *CConn, state string, msize uint32) (uint32, bool) {
 	}
 	att := &wire.Msg{Type: wire.Tattach, Tag: 1, Fid: 0, Afid: wire.NOFID, Uname: "root", Nuname: 0}
 	switch state {
+	case "authfid":
+		// fid 5 is an authentication fid (servers without authentication refuse the Tauth: nothing to attack then)
+		return 5, h.okRpc(c, &wire.Msg{Type: wire.Tauth, Tag: 1, Afid: 5, Uname: "root", Nuname: 0, Aname: "x"})
 	case "none":
 		return 5, true
 	case "nofid":
